@@ -1,10 +1,16 @@
 import BigtreeModel.Proto
 import BigtreeModel.Drv.C01
-/-! Driver handler for property C20: dispatches on `cls=`.  For `base|node` the history of the line
-(`asrt=` is ignored) is run with the checks on and with the checks off:
-`on <trace> || off <trace>`. -/
+import BigtreeModel.Drv.C10
+import BigtreeModel.Drv.C11
+/-! Driver handler for property C20: dispatches on `cls=`.  The history of the line (`asrt=` is
+ignored) is run with the checks on and with the checks off: `on <trace> || off <trace>`. -/
 namespace Drv.C20
 open Drv.C01
+
+/-- the same case line with the `asrt=` token forced to `v` -/
+def withAsrt (toks : List String) (v : String) : List String :=
+  toks.map fun t => if t.startsWith "asrt=" then "asrt=" ++ v else t
+
 def handle (toks : List String) : String :=
   match Proto.kv toks "cls" with
   | some "base" | some "node" =>
@@ -13,5 +19,9 @@ def handle (toks : List String) : String :=
     | some c =>
       "on " ++ showTrace (Store.trace { c.cfg with assertions := true } c.init c.ops)
         ++ " || off " ++ showTrace (Store.trace { c.cfg with assertions := false } c.init c.ops)
+  | some "binary" =>
+    "on " ++ Drv.C11.handle (withAsrt toks "1") ++ " || off " ++ Drv.C11.handle (withAsrt toks "0")
+  | some "dag" =>
+    "on " ++ Drv.C10.handle (withAsrt toks "1") ++ " || off " ++ Drv.C10.handle (withAsrt toks "0")
   | _ => "bad-op"
 end Drv.C20
